@@ -47,7 +47,7 @@ func metas() []message.Metadata {
 func build(uuid string, p []byte, md message.Metadata) *message.Message {
 	m := message.NewMessage(uuid, p)
 	for k, v := range md {
-		m.Metadata.Set(k, v)
+		m.Metadata[k] = v // as a transport or a map literal would fill it (Set is checked on its own below)
 	}
 	return m
 }
@@ -81,8 +81,19 @@ func copyEqualsScenario() *explore.Scenario {
 			m := build(sigma[ui], payloads[pi], md)
 			n++
 			c := m.Copy()
-			if !c.Equals(m) || !m.Equals(c) {
-				vs.Fail("copy-equals-original", "Copy() of %s does not Equal the original", describe(m))
+			if !c.Equals(m) || !m.Equals(c) || !refEquals(c, m) {
+				vs.Fail("copy-equals-original", "Copy() of %s does not Equal the original: %s", describe(m), describe(c))
+			}
+			// Set stores exactly the pair it is given (an empty value is a value)
+			viaSet := message.NewMessage(sigma[ui], payloads[pi])
+			for k, v := range md {
+				viaSet.Metadata.Set(k, v)
+				if got, ok := viaSet.Metadata[k]; !ok || got != v || viaSet.Metadata.Get(k) != v {
+					vs.Fail("metadata-set", "Metadata.Set(%q, %q) stored (%q, present=%v)", k, v, got, ok)
+				}
+			}
+			if !refEquals(viaSet, m) {
+				vs.Fail("metadata-set", "metadata built with Set is %q, the pairs were %q", map[string]string(viaSet.Metadata), map[string]string(md))
 			}
 			c.Metadata.Set("new-key", "x")
 			for k := range c.Metadata {
